@@ -19,6 +19,8 @@ OUT = os.environ.get("VERIF_OUT", "float")              # float (float64 output)
 #                                                         | cat (int8 category codes: the column is loaded as categorical)
 WIDTH = int(os.environ.get("VERIF_WIDTH", "4"))         # bit width byte of a dictionary-index page
 SELFMADE = os.environ.get("VERIF_SELFMADE", "0") == "1"  # file written by this library (index fast path)
+COMPRESSED = os.environ.get("VERIF_COMPRESSED", "0") == "1"   # SNAPPY column: value bytes of a page are compressed
+CLEN = 3                                                  # compressed length of a page's (non-empty) value bytes
 PHYS = os.environ.get("VERIF_PHYS", "int64")            # int64 | double   (physical type of the column)
 OPTIONAL = os.environ.get("VERIF_OPTIONAL", "1") == "1"
 ROWS = [int(x) for x in os.environ.get("VERIF_PAGE_ROWS", "2,2").split(",")]
@@ -314,6 +316,13 @@ def _val_len(v):
     return 8 * len(v) if ENC == "plain" else VAL_LEN
 
 
+def _stored_len(v):
+    # bytes the values occupy in the file
+    if COMPRESSED and _val_len(v):
+        return CLEN
+    return _val_len(v)
+
+
 class _ColIO:
     """cencoding.NumpyIO over the column chunk: [dictionary page] then data pages laid end to end, each
     HDR + DEF_LEN + value bytes.  read(n) with n < 1 returns everything that is left (the class's contract)."""
@@ -324,7 +333,7 @@ class _ColIO:
         p = HDR if ENC == "dict" else 0
         for d, v in pages:
             self.starts.append(p)
-            p += HDR + DEF_LEN + _val_len(v)
+            p += HDR + DEF_LEN + _stored_len(v)
         self.size = p
 
     def tell(self):
@@ -344,8 +353,8 @@ class _ColIO:
         body = self.starts[self.k] + HDR
         if (at, n) == (body, DEF_LEN):
             return Tok(("defbytes", d))
-        if (at, n) == (body + DEF_LEN, _val_len(v)):
-            return Tok(("valbytes", v))
+        if (at, n) == (body + DEF_LEN, _stored_len(v)):
+            return Tok(("cvalbytes" if COMPRESSED and _val_len(v) else "valbytes", v))
         return Tok(("garbage", None))
 
 
@@ -406,6 +415,9 @@ class _Enc:
         tgt = o.src
         esize = tgt.arr.dtype.itemsize if isinstance(tgt, _ByteView) else tgt.esize
         ok = io_obj.pos == start and (4 if itemsize == 4 else 1) == esize
+        if tok[0] == "valbytes":
+            # `length` bounds the input bytes the decoder may consume: the index stream follows the width byte
+            ok = ok and length >= VAL_LEN - 1
         if tok[0] == "defbytes" and ok:
             _fill(o, tok[1], length)
         elif tok[0] == "valbytes" and ok:
@@ -445,8 +457,9 @@ class _TO:
         size = DEF_LEN + _val_len(v)
         dph = parquet_thrift.DataPageHeaderV2(
             num_values=len(d), num_nulls=nn, num_rows=len(d), encoding=enc,
-            definition_levels_byte_length=DEF_LEN, repetition_levels_byte_length=0, is_compressed=False)
-        return parquet_thrift.PageHeader(type=parquet_thrift.PageType.DATA_PAGE_V2, compressed_page_size=size,
+            definition_levels_byte_length=DEF_LEN, repetition_levels_byte_length=0, is_compressed=COMPRESSED)
+        return parquet_thrift.PageHeader(type=parquet_thrift.PageType.DATA_PAGE_V2,
+                                         compressed_page_size=DEF_LEN + _stored_len(v),
                                          uncompressed_page_size=size, data_page_header_v2=dph)
 
 
@@ -474,6 +487,23 @@ class _NP:
         for i in range(len(a.items)):
             out.items[i] = (a.items[i] != b)
         return out
+
+
+def _s_decompress(data, size, codec):
+    # contract: the codec of the column chunk turns the stored bytes into `size` uncompressed bytes
+    if isinstance(data, Tok) and data[0] == "cvalbytes":
+        if codec == 1 and size == _val_len(data[1]):
+            return Tok(("valbytes", data[1]))
+        return Tok(("garbage", None))
+    return data
+
+
+def _s_decomp_into(src, dst):
+    # decompress straight into the bytes of the output array: they are the values when the sizes agree
+    if isinstance(src, Tok) and src[0] == "cvalbytes":
+        dst[:] = Tok(("valbytes", src[1]))
+    else:
+        dst[:] = Tok(("garbage", None))
 
 
 def _s_read_plain(raw, type_, count, width=0, utf=False, stat=False):
@@ -525,21 +555,22 @@ def run(levels, codes, mask=None):
     else:
         assign = Masked(nsel) if OUT == "nullable" else Arr(["unset"] * nsel)
     md = parquet_thrift.ColumnMetaData(type=HELPER.schema_element(["x"]).type, path_in_schema=["x"], num_values=n,
-                                       data_page_offset=4, total_compressed_size=100, codec=0)
+                                       data_page_offset=4, total_compressed_size=100, codec=1 if COMPRESSED else 0)
     col = parquet_thrift.ColumnChunk(meta_data=md)
     saved = (core.encoding, core.ThriftObject, core.read_dictionary_page, core.np, core.convert, core.decompress_data,
-             core.read_plain, core.pd)
+             core.read_plain, core.pd, core.decom_into)
     core.encoding, core.ThriftObject, core.np, core.pd = _Enc, _TO, _NP, _PDShim
+    core.decom_into = {"SNAPPY": _s_decomp_into}
     core.read_dictionary_page = lambda infile, sh, ph, cmd, utf=False: _Dic(LABELS)
     core.convert = lambda v, se, dtype=None: v
-    core.decompress_data = lambda data, size, codec: data
+    core.decompress_data = _s_decompress
     core.read_plain = _s_read_plain
     try:
         core.read_col(col, HELPER, _Raw(), assign=assign, row_filter=None if mask is None else BVec(list(mask)),
                       use_cat=OUT == "cat", catdef=catdef, selfmade=SELFMADE)
     finally:
         (core.encoding, core.ThriftObject, core.read_dictionary_page, core.np, core.convert, core.decompress_data,
-         core.read_plain, core.pd) = saved
+         core.read_plain, core.pd, core.decom_into) = saved
     if OUT == "cat":
         return [NAN if c == -1 else (catdef.cats[c] if isinstance(c, int) and 0 <= c < len(catdef.cats) else ("code", c))
                 for c in assign.store]
@@ -595,6 +626,24 @@ def _concrete(levels, codes, mask=None):
     import fastparquet
     from fastparquet import writer as w
     from vf.pyshim import flat_file
+    rows_per_page = list(ROWS)
+    if COMPRESSED:
+        # a codec only shortens pages that are long enough: every page of the witness is repeated K times (same
+        # layout of NULLs, values and selected rows within each page)
+        K = 400
+        lv2, cd2, mk2, pos, vi = [], [], [], 0, 0
+        for r in ROWS:
+            plv = list(levels[pos:pos + r])
+            nv = sum(1 for x in plv if x == 1)
+            pcd = list(codes[vi:vi + nv])
+            lv2 += plv * K
+            cd2 += pcd * K
+            if mask is not None:
+                mk2 += list(mask[pos:pos + r]) * K
+            pos += r
+            vi += nv
+        levels, codes, mask = lv2, cd2, (mk2 if mask is not None else None)
+        rows_per_page = [r * K for r in ROWS]
     vals, vi = [], 0
     for lv in levels:
         if lv == 1:
@@ -609,30 +658,35 @@ def _concrete(levels, codes, mask=None):
         return None, "pages of these sizes cannot be produced by the concrete driver"
     d = tempfile.mkdtemp(prefix="v2-")
     old = (w._rows_per_page, w.DATAPAGE_VERSION)
-    what = "v2 column %r (%s pages of %r rows%s)" % (vals, ENC, ROWS, ", loaded as categorical" if OUT == "cat" else "")
+    what = "v2 column %r%s (%s pages of %r rows%s%s)" % (
+        vals[:8], "..." if len(vals) > 8 else "", ENC, rows_per_page, ", SNAPPY" if COMPRESSED else "",
+        ", loaded as categorical" if OUT == "cat" else "")
     try:
         fn = os.path.join(d, "t.parq")
         if ENC == "delta":
-            flat_file.build(fn, [int(v) for v in vals], 64, 2, True)
+            flat_file.build(fn, [int(v) for v in vals], 64, 2, True, compress=COMPRESSED)
         elif spec_dict:
             flat_file.build_dict(fn, LABELS, list(codes), WIDTH if OUT == "cat" else 2, nulls=[lv != 1 for lv in levels],
-                                 optional=OPTIONAL, version=2, page_rows=ROWS)
+                                 optional=OPTIONAL, version=2, page_rows=rows_per_page, compress=COMPRESSED,
+                                 split_runs=COMPRESSED)
         else:
-            w._rows_per_page = lambda data, se, has_nulls=True, page_size=None: ROWS[0]
+            w._rows_per_page = lambda data, se, has_nulls=True, page_size=None: rows_per_page[0]
             w.DATAPAGE_VERSION = 2
-            fastparquet.write(fn, pd.DataFrame({"x": _series(vals)}), has_nulls=OPTIONAL)
+            fastparquet.write(fn, pd.DataFrame({"x": _series(vals)}), has_nulls=OPTIONAL,
+                              compression="SNAPPY" if COMPRESSED else None)
         cats = (["x"] if OUT == "cat" else []) if ENC == "dict" else None
         try:
             pf = fastparquet.ParquetFile(fn, pandas_nulls=(OUT == "nullable"))
             kw = {} if mask is None else dict(row_filter=np.array(mask, dtype=bool))
             out = pf.to_pandas(categories=cats, **kw)["x"]
         except Exception as ex:
-            return True, "%s read%s fails: %s: %s" % (what, "" if mask is None else " with mask %r" % (mask,),
+            return True, "%s read%s fails: %s: %s" % (what, "" if mask is None else " with mask %r" % (mask[:8],),
                                                       type(ex).__name__, str(ex)[:80])
         got = [None if pd.isna(x) else float(x) for x in out.astype(object)]
         want = [None if v is None else float(v) for v, m in zip(vals, mask or [True] * len(vals)) if m]
         if got != want:
-            return True, "%s read%s gives %r" % (what, "" if mask is None else " with mask %r" % (mask,), got)
+            return True, "%s read%s gives %r%s" % (what, "" if mask is None else " with mask %r" % (mask[:8],), got[:8],
+                                                   "..." if len(got) > 8 else "")
         return False, "agrees"
     finally:
         w._rows_per_page, w.DATAPAGE_VERSION = old
